@@ -182,18 +182,9 @@ impl<A: Send + 'static> Cell<A> {
                 node: node.clone(),
             };
             c_forward_ref.assign(&c);
-            // initial update of Cell incase of stream (in Cell::hold) firing during same transaction cell is created.
-            {
-                let c = c.clone();
-                sodium_ctx.pre_eot(move || {
-                    let mut update = node.data.update.write();
-                    let update: &mut Box<_> = &mut *update;
-                    update();
-                    // c captured, but not used so that update() will not crash here
-                    c.nop();
-                });
-            }
-            //
+            // No eager update here: if the stream fires in the transaction in which the cell is
+            // created, the propagation at the end of that transaction reaches this node as a
+            // dependent of the stream.
             c
         })
     }
